@@ -3,6 +3,7 @@ package rules
 import (
 	"fmt"
 	"go/constant"
+	"go/types"
 	"sort"
 	"strings"
 
@@ -345,4 +346,149 @@ func c20formats(c *Ctx) {
 	}
 	sort.Strings(bad)
 	c.R.Check(len(bad) == 0 && sites >= 1, rule, goctlAst+"#format-strings", "every Printf-family call of the formatter, parser and scanner (wrappers included) has a constant format string: source text is written as data", "-", strings.Join(bad, "; "), bad, sites)
+}
+
+// c20requiredChildren (R12, round 5): "the scanner and parser report errors for invalid sources rather than crashing" —
+// and what they accept, the formatter can print. For every ast node type T, the pointer-typed child fields that
+// T.Format (or End/Pos, which the writer calls) dereferences on a path where the field was not found non-nil are
+// *required*. Every parse method of the parser that returns a non-nil *T has stored a non-nil value into each
+// required field on that path. A parse method that hands back a half-built node (only its @doc) for malformed input
+// makes Parse() succeed and Format dereference nil.
+func c20requiredChildren(c *Ctx) {
+	rule := "C20.R12"
+	pk := c.P.Pkg(goctlAst)
+	if pk == nil {
+		return
+	}
+	// (1) required fields per node type
+	required := map[string]map[string]bool{} // type name → field → true
+	for _, f := range c.P.AllFuncs(goctlAst) {
+		if f.Parent() != nil || f.Signature.Recv() == nil || (f.Name() != "Format" && f.Name() != "End" && f.Name() != "Pos") {
+			continue
+		}
+		tname := namedStructOf(f.Signature.Recv().Type())
+		if tname == "" || tname == "AST" || tname == "TokenNode" {
+			continue
+		}
+		ps, _, err := px.Run(px.Config{Prog: c.P.SSA, MaxVisits: 2, MaxPaths: 20000}, f)
+		if err != nil {
+			continue
+		}
+		recvP := f.Params[0]
+		for _, p := range ps {
+			for i := range p.Events {
+				e := &p.Events[i]
+				if e.Kind != px.EvCall || e.Call == nil || e.Depth != 0 {
+					continue
+				}
+				cands := append([]*px.Sym{e.Call.Recv}, e.Call.Args...)
+				for _, r := range cands {
+					if r == nil {
+						continue
+					}
+					r = r.Strip(false)
+					// a method called on the value of field F of the receiver
+					if r.Kind != px.KLoad || r.X == nil || r.X.Kind != px.KFieldAddr || !isParam(r.X.X, recvP) {
+						continue
+					}
+					if e.Call.Recv == nil || e.Call.Recv.Strip(false) != r {
+						continue
+					}
+					fv := r.X.FieldVar()
+					if fv == nil {
+						continue
+					}
+					fpt, isPtr := fv.Type().Underlying().(*types.Pointer)
+					if !isPtr {
+						continue
+					}
+					// token nodes are taken from the parser's table of scanned tokens (registered when scanned): the rule is about
+					// child *nodes*, which exist only if their own parse method succeeded
+					if namedStructOf(fpt) == "TokenNode" {
+						continue
+					}
+					if p.Abs(r).K == px.NonNil {
+						continue
+					}
+					// interface-typed or value-receiver methods that tolerate nil? node methods here have pointer receivers that read fields
+					if required[tname] == nil {
+						required[tname] = map[string]bool{}
+					}
+					required[tname][fv.Name()] = true
+				}
+			}
+		}
+	}
+	// (2) the parser's constructors
+	n := 0
+	for _, f := range c.P.AllFuncs(goctlParser) {
+		if f.Parent() != nil || recvName(f) != "Parser" || !strings.HasPrefix(f.Name(), "parse") || f.Signature.Results().Len() != 1 {
+			continue
+		}
+		pt, ok := f.Signature.Results().At(0).Type().(*types.Pointer)
+		if !ok {
+			continue
+		}
+		tname := namedStructOf(pt)
+		req := required[tname]
+		if len(req) == 0 {
+			continue
+		}
+		n++
+		ps := c.paths(rule, f, px.Config{MaxVisits: 2, MaxPaths: 200000})
+		var reqNames []string
+		for k := range req {
+			reqNames = append(reqNames, k)
+		}
+		sort.Strings(reqNames)
+		c.forall(rule, goctlParser+".(*Parser)."+f.Name(), fmt.Sprintf("a non-nil *%s is returned only with the children its Format/End/Pos dereference unconditionally (%s) set to non-nil values", tname, strings.Join(reqNames, ", ")), f, ps, func(p *px.Path) (bool, string) {
+			if p.Exit != px.ExitReturn || len(p.Results) != 1 {
+				return true, ""
+			}
+			r := p.Results[0].Strip(false)
+			if r.Kind != px.KAlloc {
+				return true, "" // nil, or a node built elsewhere (checked where it is built)
+			}
+			for _, fld := range reqNames {
+				set := false
+				for _, st := range p.All(px.KindIs(px.EvStore)) {
+					if px.FieldAddrIs(st.Addr, fld, func(b *px.Sym) bool { return b == r }) {
+						v := st.Val.Strip(false)
+						set = p.Abs(v).K == px.NonNil || v.Kind == px.KAlloc ||
+							(v.Kind == px.KCall && v.Call != nil && v.Call.Static != nil && returnsFreshAlloc(v.Call.Static))
+					}
+				}
+				if !set {
+					return false, fmt.Sprintf("a *%s is returned with %s still nil (or not known non-nil): %s.Format/End/Pos call a method on it without a nil test — the parser accepts the input and the formatter crashes", tname, fld, tname)
+				}
+			}
+			return true, ""
+		})
+	}
+	c.R.Extra["C20.R12_required"] = required
+	if n < 2 {
+		c.R.Undecided(rule, goctlParser+"#constructors", "the parse methods building nodes with required children are recognised", fmt.Sprintf("%d found", n))
+	}
+}
+
+// returnsFreshAlloc: every return of f hands back the address of an object it allocated (never nil).
+func returnsFreshAlloc(f *ssa.Function) bool {
+	if f == nil || f.Blocks == nil {
+		return false
+	}
+	n := 0
+	for _, b := range f.Blocks {
+		for _, ins := range b.Instrs {
+			if r, ok := ins.(*ssa.Return); ok {
+				if len(r.Results) != 1 {
+					return false
+				}
+				if _, ok := r.Results[0].(*ssa.Alloc); !ok {
+					return false
+				}
+				n++
+			}
+		}
+	}
+	return n > 0
 }
